@@ -228,98 +228,108 @@ def inverse_pair(ctx):
     ctx.ob('INVERSE-PAIR', UC + '::parse', 'a numeric argument is returned unchanged', ok, node=parse)
 
 
+def _ref_parse(text, names):
+    """reference reading of a unit expression: ^ binds tighter than * and / (left to right among themselves), * and / left to right, parentheses group"""
+    pos = [0]
+
+    def ws():
+        while pos[0] < len(text) and text[pos[0]] in ' \n\r\t':
+            pos[0] += 1
+
+    def atom():
+        ws()
+        if pos[0] >= len(text):
+            raise ValueError('operand expected')
+        ch = text[pos[0]]
+        if ch == '(':
+            pos[0] += 1
+            v = expr(True)
+            ws()
+            if pos[0] >= len(text) or text[pos[0]] != ')':
+                raise ValueError('unclosed (')
+            pos[0] += 1
+            return v
+        j = pos[0]
+        while j < len(text) and text[j] not in ' */^\n\r\t()':
+            j += 1
+        tok = text[pos[0]:j]
+        if not tok:
+            raise ValueError('operand expected at %d' % pos[0])
+        pos[0] = j
+        if tok[0].isalpha():
+            return names[tok]
+        return sp.nsimplify(sp.Float(tok)) if any(c in tok for c in '.eE') else sp.Integer(int(tok))
+
+    def power():
+        v = atom()
+        ws()
+        while pos[0] < len(text) and text[pos[0]] == '^':
+            pos[0] += 1
+            v = v ** atom()
+            ws()
+        return v
+
+    def expr(inner=False):
+        v = power()
+        ws()
+        while pos[0] < len(text) and text[pos[0]] in '*/':
+            o = text[pos[0]]
+            pos[0] += 1
+            w = power()
+            v = v * w if o == '*' else v / w
+            ws()
+        if pos[0] < len(text) and not (inner and text[pos[0]] == ')'):
+            raise ValueError('unexpected %r' % text[pos[0]])
+        return v
+    return expr()
+
+
 def precedence(ctx):
+    """parse() interpreted whole on unit-expression strings over symbolic unit values, against an independent reading of the grammar"""
     parse = ctx.fn(UC, 'parse')
     loc = UC + '::parse'
-    # the string arm
-    arm = None
-    for s in ast.walk(parse):
-        if isinstance(s, ast.If) and norm(s.test).replace(' ', '') == 'isinstance(units,str)':
-            arm = s
-    ctx.need(arm is not None, 'parse(): the isinstance(units, str) arm was not found')
-    body = arm.body
-    whiles = [s for s in body if isinstance(s, ast.While)]
-    ctx.need(len(whiles) >= 2, 'parse(): tokenizer loop and reduction loops not found as top-level while statements')
-    tok = whiles[0]
-    red_start = body.index(whiles[1])
-    reduction = body[red_start:]
-    # --- reduction semantics on symbolic operands
-    ev = _ev()
+    names = {n: sp.Symbol('U_' + n, positive=True) for n in ('m', 'kg', 's', 'eV', 'angstrom', 'GPa', 'mol', 'K')}
+
+    def run(text):
+        ev = SymEval(module_aliases(ctx.mod(UC)))
+        ev.globals = {'unit': dict(names)}
+        try:
+            live = [q for q in ev.run_fn(parse, [text], {}) if q.done == 'return']
+        except WouldRaise:
+            return 'raise'
+        except Opaque as e:
+            raise AnalysisError('parse(%r): %s' % (text, e))
+        return live[0].ret if len(live) == 1 else 'raise'
     ops = ['*', '/', '^']
-    npat = 0
-    bad = []
+    pool = ['m', 'kg', 's', 'eV', 'angstrom']
+    bad, npat = [], 0
     for n in range(0, 5):
         for pat in itertools.product(ops, repeat=n):
-            syms = [sp.Symbol('t%d' % i, positive=True) for i in range(n + 1)]
-            terms = [syms[0]]
-            for o, s_ in zip(pat, syms[1:]):
-                terms += [o, s_]
-            # oracle: powers bind tighter (left to right among themselves), then * and / left to right
-            vals = [syms[0]]
-            vops = []
-            for o, s_ in zip(pat, syms[1:]):
-                if o == '^':
-                    vals[-1] = vals[-1] ** s_
-                else:
-                    vops.append(o)
-                    vals.append(s_)
-            want = vals[0]
-            for o, x in zip(vops, vals[1:]):
-                want = want * x if o == '*' else want / x
-            p = Path({'terms': list(terms), 'units': 'x'})
-            try:
-                paths = ev.block(reduction, [p])
-                live = [q for q in paths if q.done == 'return']
-                got = live[0].ret if len(live) == 1 else None
-            except Opaque as e:
-                raise AnalysisError('parse(): reduction part left the vocabulary: %s' % e)
+            toks = [pool[0]]
+            for k, o in enumerate(pat):
+                toks += [o, ('2' if o == '^' else pool[(k + 1) % len(pool)])]
+            text = ''.join(toks)
             npat += 1
-            if got is None or not is_zero(sp.simplify(got - want)):
-                bad.append((' '.join(str(t) for t in terms), str(got), str(want)))
+            got, want = run(text), _ref_parse(text, names)
+            if got == 'raise' or not is_zero(sp.simplify(got - want)):
+                bad.append('%s -> %s, expected %s' % (text, got, want))
     ctx.floor('PRECEDENCE/patterns', npat, 121)
-    ctx.ob('PRECEDENCE', loc, 'reduction of a token list follows ordinary precedence (^ first, then * and / left to right) on all %d operator patterns up to 4 operators' % npat,
-           not bad, '; '.join('%s -> %s, expected %s' % b for b in bad[:3]), node=whiles[1])
-    # malformed token lists are refused, not mis-evaluated
-    p = Path({'terms': [sp.Symbol('a'), sp.Symbol('b')], 'units': 'x'})
-    paths = ev.block(reduction, [p])
-    ctx.ob('PRECEDENCE', loc, 'two adjacent operands without an operator are refused', all(q.done == 'raise' for q in paths), node=whiles[1])
-    # --- tokenizer structure
-    appends = [c for c in calls_in(tok) if norm(c.func) == 'terms.append' and c.args]
-    kinds = {}
-    for c in appends:
-        a = c.args[0]
-        if isinstance(a, ast.Call) and norm(a.func) == 'parse':
-            kinds['paren'] = (c, a)
-        elif isinstance(a, ast.Subscript) and norm(a.value) == 'unit':
-            kinds['name'] = (c, a)
-        elif isinstance(a, ast.Call) and norm(a.func) == 'float':
-            kinds['number'] = (c, a)
-        elif isinstance(a, ast.Subscript) and norm(a.value) == 'units':
-            kinds['operator'] = (c, a)
-    ctx.need(set(kinds) == {'paren', 'name', 'number', 'operator'}, 'parse(): tokenizer arms found: %s' % sorted(kinds))
-    c, a = kinds['paren']
-    arg = a.args[0]
-    ok = isinstance(arg, ast.Subscript) and norm(arg.value) == 'units' and isinstance(arg.slice, ast.Slice) and norm(arg.slice.lower).replace(' ', '') == 'i+1' and norm(arg.slice.upper) == 'j'
-    ctx.ob('PRECEDENCE', loc, 'a parenthesised group is reduced by recursion on exactly the enclosed substring and enters the token list as one operand', ok, norm(a), node=c)
-    # i = j + 1 after the paren arm
-    parm = c
-    while not (isinstance(parm, ast.If) and parm in tok.body or isinstance(getattr(parm, '_parent', None), ast.While) and parm._parent is tok):
-        parm = parm._parent
-    nxt = [s for s in ast.walk(parm) if isinstance(s, ast.Assign) and norm(s.targets[0]) == 'i' and norm(s.value).replace(' ', '') in ('j+1', '1+j')]
-    ctx.ob('PRECEDENCE', loc, 'scanning resumes after the closing parenthesis', bool(nxt), node=c)
-    # nesting counter: '(' increments, ')' at depth 0 closes
-    inner = [s for s in ast.walk(parm) if isinstance(s, ast.While)]
-    txt = norm(inner[0]) if inner else ''
-    ctx.ob('PRECEDENCE', loc, 'nested parentheses are matched by a depth counter', 'pcount += 1' in txt and 'pcount -= 1' in txt and 'pcount == 0' in txt, node=inner[0] if inner else c)
-    # character classes
-    consts = [n.value for n in ast.walk(tok) if isinstance(n, ast.Constant) and isinstance(n.value, str)]
-    opclass = [x for x in consts if set(x) == set('*/^')]
-    sepclass = [x for x in consts if set(' */^') <= set(x) and not any(ch.isalnum() or ch in '.-+()' for ch in x)]
-    ctx.ob('PRECEDENCE', loc, 'operator characters are exactly * / ^', len(opclass) >= 1, str(consts), node=tok)
-    ctx.ob('PRECEDENCE', loc, 'names and numbers end at whitespace or an operator (and only there)', len(sepclass) >= 2, str(consts), node=tok)
-    # ')' without '(' refused ; unknown characters refused
-    raises = [s for s in ast.walk(tok) if isinstance(s, ast.Raise)]
-    ctx.ob('PRECEDENCE', loc, 'unbalanced parentheses and unknown characters are refused', len(raises) >= 3, '%d raise statements in the tokenizer' % len(raises), node=tok)
+    ctx.ob('PRECEDENCE', loc, 'an expression without parentheses follows ordinary precedence (^ first, then * and / left to right) on all %d operator patterns up to 4 operators' % npat, not bad, '; '.join(bad[:3]), node=parse)
+    cases = ['(m)', '((m))', 'eV/(angstrom*s)', 'kg*m/s^2', '(kg*m)/(s^2)', 'kg*(m/s)^2', 'eV/(angstrom*(s/(mol*K)))^2', '(m/s)/(kg/(mol*s))*K', ' kg * m\t/ s ^ 2 ', 'm^-2', '1/s', '1e-10*m', '0.5*(eV/angstrom^3)', 'GPa/(1.5*K)',
+             '((m*s)^2)^3', '(m)*(s)', 'm^(2)', '2.5', 'angstrom^3/mol*(K*(s))']
+    badc = []
+    for text in cases:
+        got, want = run(text), _ref_parse(text, names)
+        if got == 'raise' or not is_zero(sp.simplify(sp.sympify(got) - want)):
+            badc.append('%r -> %s, expected %s' % (text, got, want))
+    ctx.ob('PRECEDENCE', loc, 'parenthesised groups (nested to any depth) are reduced first and enter as one operand; white space is ignored; numbers (signed, decimal, exponent) are factors (%d expressions)' % len(cases), not badc,
+           '; '.join(badc[:3]), node=parse, key='groups')
+    ctx.floor('PRECEDENCE/groups', len(cases), 15)
+    refused = ['(m', 'm)', '(m*(s)', 'm*s)', 'm s', 'm$', '(m)(s)', 'm*/s']
+    acc = [t for t in refused if run(t) != 'raise']
+    ctx.ob('PRECEDENCE', loc, 'malformed expressions are refused, not mis-evaluated: unmatched parenthesis either way, adjacent operands, unknown character, doubled operator', not acc, 'accepted: %s' % acc, node=parse, key='refusals')
+    ok = run(None) == 1 and run('scaled') == 1 and run(sp.Rational(7, 2)) == sp.Rational(7, 2)
+    ctx.ob('PRECEDENCE', loc, 'None and "scaled" mean no scaling; a number is passed through', bool(ok), node=parse, key='passthrough')
 
 
 def model_keys(ctx):
